@@ -13,6 +13,8 @@ non-uniform) coordinate vector and every value array.
 import OdlModel.Model.Interp
 import OdlModel.Lemmas.Interp
 import OdlModel.Gen.InterpEdges
+import OdlModel.Model.Sampling
+import OdlModel.Lemmas.Sampling
 import Mathlib.Tactic.Ring
 import Mathlib.Tactic.Linarith
 import Mathlib.Tactic.Module
@@ -46,7 +48,7 @@ def affineAt {K V : Type} [Add V] [SMul K V] (a0 : V) : List K → List V → V
 
 end OdlModel.C15
 
-open OdlModel.Interp OdlModel.C15 OdlModel.Gen.Interp
+open OdlModel OdlModel.Interp OdlModel.C15 OdlModel.Gen.Interp
 
 section
 variable {K : Type} [Field K] [LinearOrder K] [IsStrictOrderedRing K]
@@ -281,12 +283,15 @@ theorem C15.nearest_outside_clamps (c : Nat → K) (n : Nat) (p : K) (h : Incr c
     rw [abs_of_nonneg (by linarith), abs_of_nonneg (by linarith)] at h0
     linarith
 
-/-- Calling conventions: a point array of shape `(d, N)` (per-axis index/weight arrays of
-length `N`, combined position-wise) gives, entry by entry, the single-point results at its
-columns; a mesh grid (per-axis arrays combined by broadcasting) gives, in C order, the
-single-point results at the points of the cartesian product.  Holds for the per-axis/linear
-interpolator and for the nearest interpolator, every dimension, every number of points per
-axis (since the repair of finding C15-F1 the mesh-grid call has no input guard any more). -/
+/-- Calling conventions — a statement about the MODEL's combination logic only: the model
+evaluates the per-axis stage on each coordinate row and then combines the per-axis results
+position-wise (`columns`, point array) resp. over the cartesian product (`cartesian`, mesh
+grid); this theorem says that this equals mapping the single-point interpolant over the columns
+resp. the product points (map commutes with the combinators).  That NumPy's fancy indexing
+`values[edge]` with broadcast index arrays, `weight[vslice]`, `out_shape_from_meshgrid` and
+`x.reshape([ndim, -1])` realise exactly these two combinations is NOT proved: it is part of the
+trusted base and tested on every run (correspondence in all three conventions and the oracle
+"calling conventions differ" on the real code). -/
 theorem C15.call_convention_invariant (axes : List (Axis K)) (v : List Nat → V)
     (W : Type) (w : List Nat → W) (xs : List (List K)) (h : xs.length = axes.length) :
     perAxisArray axes v xs = (columns xs).map (perAxisInterp axes v) ∧
@@ -378,11 +383,13 @@ theorem C15.extracted_find_indices (c : Nat → K) (n : Nat) (p : K) (hn : 2 ≤
     findIndex]
   split_ifs <;> omega
 
-/-- Input conventions of the interpolators (`_check_interp_input`), every dimension `d ≥ 1`: a
-point array of shape `(d, N)` is accepted as `N` points with an array result, a single point
-(`()` in 1d, `(d,)` otherwise) gives a scalar, a flat `(N,)` array in 1d is `N` points, and a
-first dimension that is not `d` is rejected — exactly the inputs `call_convention_invariant`
-speaks about, nothing is silently reinterpreted. -/
+/-- Input conventions of the interpolators for array-like (non-mesh) input: evaluations of the
+hand-written table `classifyArrayInput` (compared with the three real interpolators on 14
+shapes per dimension on every run) for every dimension `d ≥ 1`: a point array `(d, N)` is `N`
+points with an array result, a single point (`()` in 1d, `(d,)` otherwise) gives a scalar, a
+flat `(N,)` array in 1d is `N` points, a first dimension other than `d` and every rank ≥ 3 is
+rejected.  (In the code the mesh-grid test `is_valid_input_meshgrid` runs first; it only
+accepts tuples of `d` arrays of rank `d` and is not part of this table.) -/
 theorem C15.input_classification (d N : Nat) (hd : 1 ≤ d) :
     classifyArrayInput d [d, N] = some (false, N) ∧
     classifyArrayInput 1 [] = some (true, 1) ∧
@@ -406,20 +413,53 @@ theorem C15.input_classification (d N : Nat) (hd : 1 ≤ d) :
   · intro a b c rest
     by_cases h : d = 1 <;> simp [classifyArrayInput, h]
 
-/-- Sampling dispatch: whatever the calling convention of the user's callable (out-of-place
-only, dual use, in-place only) and whether or not `out` is given, every path through
-`sampling_function` / `dual_use_func` yields the user's array expression fitted to the output
-shape — so if that fitted expression equals the callable's values at the grid points
-(`target`), every path returns exactly those values.  `fit` (NumPy assignment / broadcasting /
-equal-size reshape) is a parameter, assumed idempotent. -/
-theorem C15.collocate_paths_agree {A : Type} (fit : A → A) (hfit : ∀ a, fit (fit a) = fit a)
-    (k : CallKind) (outGiven : Bool) (e target : A) (he : fit e = target) :
-    sampleVia fit k outGiven e = target := by
-  subst he
-  cases k <;> cases outGiven <;> simp [sampleVia, userCall, userGetsOut, hfit]
+/-- Sampling (`sampling_function` / `dual_use_func` / `point_collocation`, scalar-valued
+callables, mesh-grid or point-array input): whichever of the shapes NumPy broadcasting can give
+it the user's code returns — the full output shape, a shape with unit axes (function of only
+some coordinates), `()` (constant) or `(1, n)` (1d function of `x` itself) — and whichever path
+runs (callable out-of-place only / dual use / in-place only, `out` given or not:
+`_default_ip`'s reshape-or-assign, `_default_oop`, the squeeze/reshape/broadcast
+post-processing), the wrapper delivers an array of exactly the output shape `s` whose entry at
+every valid index is the value the returned array carries for that index (`view`).  So if the
+callable's array holds `f(gridPoint idx)` in NumPy's sense, every path yields
+`fun idx => f (gridPoint idx)`.  About the EXECUTED definition `Sampling.sample` (compared with
+the real wrapper on every run); NumPy's `broadcast_to` / C-order `reshape` / assignment are the
+concrete functions of `Model/Sampling.lean`; all axis lengths positive. -/
+theorem C15.sampling_paths_collocate {W : Type} (k : Sampling.CallKind) (outGiven : Bool)
+    (d : Nat) (inp : Sampling.InputKind) (hinp : inp ≠ .point) (s : List Nat) (hne : s ≠ [])
+    (hp : ∀ n ∈ s, 0 < n) (r : Sampling.Arr W) (hf : Sampling.RetForm d s r.shape)
+    (tgt : List Nat → W) (hv : ∀ idx, Sampling.Valid s idx → Sampling.view s r idx = tgt idx) :
+    Sampling.Delivers s tgt (Sampling.sample k outGiven d inp s r) := by
+  unfold Sampling.sample
+  cases outGiven
+  · -- out-of-place
+    cases k
+    · simp only [Bool.false_eq_true, if_false, Option.bind_some, hinp]
+      obtain ⟨a, ha, h1, h2⟩ := Sampling.oopPost_delivers hne hinp hf hv
+      exact ⟨a, by rw [ha]; rfl, h1, h2⟩
+    · simp only [Bool.false_eq_true, if_false, Option.bind_some, hinp]
+      obtain ⟨a, ha, h1, h2⟩ := Sampling.oopPost_delivers hne hinp hf hv
+      exact ⟨a, by rw [ha]; rfl, h1, h2⟩
+    · simp only [Bool.false_eq_true, if_false, hinp, Sampling.defaultOop]
+      obtain ⟨a, ha, h1, h2⟩ := Sampling.assignTo_delivers hf hv
+      refine ⟨a, ?_, h1, h2⟩
+      rw [ha, Option.bind_some, Sampling.oopPost_id hinp a h1]; rfl
+  · -- in place
+    cases k
+    · simp only [if_true, hinp, if_false]
+      exact Sampling.defaultIp_delivers hp hne hf hv
+    · simp only [if_true, hinp, if_false]
+      exact Sampling.assignTo_delivers hf hv
+    · simp only [if_true, hinp, if_false]
+      exact Sampling.assignTo_delivers hf hv
 
-/-- Non-vacuity: `fit` = broadcasting a list to length 3 (idempotent); a constant return value
-`[7]` reaches the full array on the in-place-only / no-`out` path. -/
-example : sampleVia (fun l : List Nat => List.replicate 3 (l.headD 0)) .ipOnly false [7] = [7, 7, 7] := by
-  decide
+/-- Non-vacuity: a function of the first coordinate only on a 2 x 3 mesh returns shape `(2, 1)`;
+through `_default_ip` (out-of-place-only callable, `out` given) entry `(1, 2)` of the result is
+the value for the first-axis index 1. -/
+example : Sampling.RetForm 2 [2, 3] [2, 1] ∧
+    (∃ a, Sampling.sample .oopOnly true 2 .mesh [2, 3] ⟨[2, 1], fun idx => (idx.headD 0 + 10 : Nat)⟩
+        = some a ∧ a.shape = [2, 3] ∧ a.get [1, 2] = 11) := by
+  refine ⟨.bcast (.cons (Or.inr rfl) (.cons (Or.inl rfl) .nil)), ?_⟩
+  simp [Sampling.sample, Sampling.defaultIp, Sampling.reshapeC, Sampling.size, Sampling.assignTo,
+    Sampling.leadDrop, Sampling.broadcastTo, Sampling.broadcastable, Sampling.bcastIndex]
 end
